@@ -41,7 +41,7 @@ def shards(tier):
 
 
 def timeout(tier):
-    return 300 if tier == "quick" else 1200
+    return 900 if tier == "quick" else 5400
 
 
 def opts(**kw):
